@@ -144,7 +144,9 @@ theorem cycle_not_handler_reason (cfg : Cfg) (P : Store) (now now1 : Tick) (exec
 
 theorem cycle_no_handlers (cfg : Cfg) (P : Store) (now now1 : Tick) (exec : Id → Nat → Outcome)
     (hr : handlerReasons.contains cfg.reason = true) (he : cfg.selected.isEmpty = true) :
-    cycle cfg P now now1 exec = { invoked := [], P' := midStore cfg P now, closed := true, delays := [] } := by
+    cycle cfg P now now1 exec =
+      { invoked := [], P' := purge (midStore cfg P now) (preState cfg P now) cfg.owned (known cfg),
+        closed := true, delays := [] } := by
   unfold cycle
   simp only [hr, he, Bool.not_true, Bool.false_eq_true, if_false, if_true]
   unfold midStore preState extras
